@@ -40,10 +40,12 @@ MonCall ==
     /\ (Ev.c = "update" =>
           /\ Check("SubmitsTheVerifiedCheckpoint", Ev.cpsub)
           /\ Check("OldSizeIsLatestOfThisAttempt", lat # Unset /\ Ev.old = Old)
-          /\ Check("NeverWhenWitnessIsAhead", ~(lat # None /\ lat.n > sc.sub.n))
-          /\ Check("ProofIsTheOneJustFetched",
-                   IF lat # None /\ lat.n = sc.sub.n /\ lat.same THEN Ev.pf = "empty"
-                   ELSE Ev.pf = "fetched" /\ lastpf # Unset /\ lastpf.from = Old /\ lastpf.to = sc.sub.n))
+          \* (the remaining two need what the witness reported in this attempt; without a report the line above has already failed)
+          /\ (lat # Unset =>
+                /\ Check("NeverWhenWitnessIsAhead", ~(lat # None /\ lat.n > sc.sub.n))
+                /\ Check("ProofIsTheOneJustFetched",
+                         IF lat # None /\ lat.n = sc.sub.n /\ lat.same THEN Ev.pf = "empty"
+                         ELSE Ev.pf = "fetched" /\ lastpf # Unset /\ lastpf.from = Old /\ lastpf.to = sc.sub.n)))
 
 MonResult ==
     /\ Check("Terminates", ~Ev.hang)
